@@ -27,6 +27,20 @@ def run(ctx):
     # every basis blade: E ^ hodge(E) = pss, duals of blades, and all blade pairs for the regressive product
     groups += blade_pair_plan(ctx, ['wedge_hodge', 'hodge', 'unhodge', 'dual', 'polarity'], dims=(3, 4, 5, 6))
     groups += blade_pair_plan(ctx, ['rp'], dims=(3, 4, 5, 6))
+    # the dual and the undual of ONE key pattern on ONE algebra with a wrapper set (generated functions are then called by
+    # name through numspace), every case visited again after the others were generated: a dual must not be replaced by
+    # its undual (they differ for odd grades in even d / where pss^2 = -1)
+    import patterns as P
+    from kdriver import ucfg, named_ucfg
+    rng = ctx.rng
+    for u, d in ((ucfg(sig=[1, 1]), 2), (ucfg(sig=[1, 1, 1]), 3), (named_ucfg('3DPGA'), 4), (ucfg(sig=[0, 1, 1, 1]), 4), (ucfg(sig=[1, 1, 1, -1]), 4)) + \
+            (() if q else ((named_ucfg('2DPGA'), 3), (ucfg(sig=[1, -1]), 2), (ucfg(sig=[1, 1, 1, 1, 1, 1]), 6))):
+        cases = []
+        for _ in range(4 if q else 16):
+            k = rng.choice([tuple(b) for b in P.grade_blocks(d) if 0 < len(b) <= 6] + [P.random_key_tuple(rng, d, 4, 1)])
+            for op in ('hodge', 'unhodge', 'polarity', 'unpolarity', 'dual', 'undual'):
+                cases.append((op, [list(k)], []))
+        groups.append({'u': u, 'opts': {'wrapper': True}, 'cases': cases, 'revisit': 1.0})
     run_plan(ctx, groups)
     return ctx.finish(
         rule='case = (configuration incl. custom bases whose pseudoscalar is oriented differently, operator in {hodge, unhodge, polarity, '
